@@ -307,6 +307,7 @@ impl<S: Read> Master<S> {
             }
         }
         process.complete()?;
+        self.stdout.borrow_mut().flush()?;
         Ok(())
     }
 
